@@ -241,6 +241,17 @@ def _clear_module_caches(tw):
                     pass
 
 
+def _brief(x, limit):
+    """JSON-able structure, cut to a bounded size (evidence files must stay small)"""
+    try:
+        t = json.dumps(x, default=str)
+    except Exception:
+        t = repr(x)
+    if len(t) <= limit:
+        return x
+    return dict(truncated=True, size=len(t), head=t[:limit])
+
+
 def _has_real_atoms(x):
     if isinstance(x, symnp.ndarray):
         return _has_real_atoms(x.tolist())
@@ -382,10 +393,10 @@ def run_task(task):
             if len(out['samples']) < nsample and res.info is not None:
                 try:
                     model = eng._ensure_model()
-                    out['samples'].append(dict(obligation=oblname, outcome=res.outcome, path=res.info,
-                                               example_inputs=concretise(model, res.inputs),
+                    out['samples'].append(dict(obligation=oblname, outcome=res.outcome, path=_brief(res.info, 1500),
+                                               example_inputs=_brief(concretise(model, res.inputs), 2500),
                                                path_condition_size=len(eng.solver.assertions()),
-                                               clauses=[c[0] for c in res.clauses]))
+                                               clauses_total=len(res.clauses), clauses=sorted(set(c[0] for c in res.clauses))[:25]))
                 except Exception:
                     pass
             if len(out['violations']) >= opts.get('max_violations', 3):
